@@ -4,11 +4,17 @@ from harness import fw, impl, regsim, regrun, authsim
 
 def run_reg(chk, A, table_auth):
     B = regrun.RegBench(chk, type("BR", (), {"runner_ok": A.R is not None})(), oracle_obj=A.O)
+    from harness import srcdict
+    AAGUIDS = [None] + srcdict.aaguids() + [bytes(16), bytes.fromhex("d548826e79b4db40a3d811116f7e8349"), bytes.fromhex("ea9b8d664d011d213ce4b6b48cb575d4"), bytes.fromhex("adce000235bcc60a648b0b25f1f05503"),
+                        bytes.fromhex("08987058cadc4b81b6e130de50dcbe96"), bytes.fromhex("fbfc3007154e4ecc8c0b6e020557d7bd"), b"\xff" * 16]
     for f in range(256):
         for ruv in (False, True):
             for rup in (False, True):
                 s = regsim.RScn("none" if f % 5 else "packed-self", "ES256-P256" if f % 3 else "EdDSA")
                 s.flags, s.require_uv, s.require_up = f, ruv, rup
+                ag = AAGUIDS[(f + 3 * ruv + 5 * rup) % len(AAGUIDS)]        # the authenticator model is not a flag matter
+                if ag is not None:
+                    s.aaguid = ag
                 if f & 0x80:
                     s.ext = (None, b"\xa0", b"\xa1\x68credBlob\x58\x20" + bytes(32), b"\xa1\x63uvm\x81\x83\x02\x04\x02")[(f // 4 + ruv + rup) % 4]
                 pd, reg = regsim.build(s)
